@@ -606,7 +606,6 @@ class eval_abs(object):
                 ov = self.get_mem_overlapping(a, eval_cache)
                 off_base = 0
                 ov.sort()
-                ov.reverse()
                 for off, x in ov:
                     off_base = off * 8
                     if off >=0:
@@ -619,6 +618,7 @@ class eval_abs(object):
                         m = min(a.get_size()-off*8, x.get_size())
                         ee = ExprSlice(self.pool[x], -off*8, m)
                         ee = expr_simp(ee)
+                        off_base = 0
                         out.append((ee, off_base, off_base+ee.get_size()))
                         off_base += ee.get_size()
                 if out:
